@@ -14,6 +14,7 @@ import (
 	"github.com/uber-go/gopatch/internal/astdiff"
 	"github.com/uber-go/gopatch/internal/engine"
 	"github.com/uber-go/gopatch/internal/parse"
+	"github.com/uber-go/gopatch/internal/vhook"
 )
 
 // File is a patch difference file that can be applied to Go file.
@@ -40,6 +41,7 @@ func Parse(patchFileName string, src []byte) (*File, error) {
 
 // Apply takes the Go file name and its contents and returns a Go file with the patch applied.
 func (f *File) Apply(filename string, src []byte) ([]byte, error) {
+	vhook.Gate("parse")
 	base, err := parser.ParseFile(f.fset, filename, src, parser.AllErrors|parser.ParseComments)
 	if err != nil {
 		return nil, fmt.Errorf("could not parse %q: %w", filename, err)
@@ -50,6 +52,7 @@ func (f *File) Apply(filename string, src []byte) ([]byte, error) {
 	var fout *ast.File
 	var retErr error
 	for _, c := range f.prog.Changes {
+		vhook.Gate("match")
 		d, ok := c.Match(base)
 		if !ok {
 			// This patch didn't modify the file. Try the next one.
@@ -58,12 +61,14 @@ func (f *File) Apply(filename string, src []byte) ([]byte, error) {
 
 		cl := engine.NewChangelog()
 
+		vhook.Gate("replace")
 		fout, err = c.Replace(d, cl)
 		if err != nil {
 			retErr = errors.Join(retErr, err)
 			continue
 		}
 
+		vhook.Gate("diff")
 		snap = snap.Diff(fout, cl)
 		cleanupFilePos(f.fset.File(fout.Pos()), cl, fout.Comments)
 	}
@@ -77,12 +82,14 @@ func (f *File) Apply(filename string, src []byte) ([]byte, error) {
 	}
 
 	var out bytes.Buffer
+	vhook.Gate("format")
 	err = format.Node(&out, f.fset, fout)
 	if err != nil {
 		return nil, err
 	}
 
 	bs := out.Bytes()
+	vhook.Gate("imports")
 	bs, err = imports.Process(filename, bs, &imports.Options{
 		Comments:   true,
 		TabIndent:  true,
